@@ -404,6 +404,9 @@ class GPR(Module):
             walker = GPRWalker()
             walker.visit(self)
             self._genes = deepcopy(walker.gene_set)
+        else:
+            # an empty rule has no genes
+            self._genes = set()
 
     def _eval_gpr(
         self,
